@@ -167,6 +167,29 @@ def prepare(case):
                 except StopIteration:
                     break
             tk._vf_keepalive = g  # abandoned, not closed
+        elif how[0] == "raise":
+            # the earlier run is interrupted by an exception coming out of the data source
+            class _Boom(Exception):
+                pass
+
+            class _Failing(DataSource):
+                def __init__(self, inner, after):
+                    self.inner, self.left = inner, after
+
+                def read(self):
+                    if self.left <= 0:
+                        raise _Boom()
+                    self.left -= 1
+                    return self.inner.read()
+
+            try:
+                if how[2] == "list":
+                    tk.tokenize(_Failing(s0, how[1]))
+                else:
+                    for _t in tk.tokenize(_Failing(s0, how[1]), generator=True):
+                        pass
+            except _Boom:
+                pass
         elif how[0] in ("two_gens", "close_mid"):
             tk._vf_pre_source = s0  # handled by run_case
         else:
